@@ -192,6 +192,7 @@ func (e *Engine) watchSuffix(st *State, g *G) string {
 
 func (e *Engine) recordFailure(st *State, f *Failure) {
 	f.Decs = st.decisionList()
+	f.Gids = e.gidTable()
 	f.Blocked = e.blockedSig(st)
 	for k := range st.known {
 		f.Known = append(f.Known, k)
@@ -658,6 +659,7 @@ func (w *Worker) expand(st *State, it item, trans []Trans, sleep []Trans, depth 
 		g.Granted = &Grant{Case: t.Case, Partner: t.Partner, PCase: t.PCase}
 		g.Status = gRunnable
 		child.addDecision("sched", e.transDesc(&t), i)
+		child.dec.T = e.schedInfoOf(child, g, &t)
 		atomic.AddInt64(&e.res.Transitions, 1)
 		ci := item{st: child, cur: t.G, sleep: csleep}
 		if !local && i < len(alts)-1 && atomic.LoadInt32(&e.pool.idle) > 0 {
@@ -697,6 +699,59 @@ func containsTrans(s []Trans, t *Trans) bool {
 		}
 	}
 	return false
+}
+
+// schedInfoOf records the granted transition in structured form.
+func (e *Engine) schedInfoOf(st *State, g *G, t *Trans) *schedInfo {
+	si := &schedInfo{G: t.G, Kind: t.Kind, Pos: t.Pos, Case: t.Case, Partner: t.Partner, PCase: t.PCase}
+	if t.Partner != 0 {
+		if pg := st.findG(t.Partner); pg != nil && pg.Pending != nil {
+			si.PartnerPos = pg.Pending.Pos
+		}
+	}
+	for i, fr := range g.Frames {
+		if fr.Info.stubfile || fr.Info.stubFor != "" {
+			si.Stub = true
+			if i > 0 {
+				si.Caller = e.instrPos(g.Frames[i-1])
+			}
+			break
+		}
+	}
+	return si
+}
+
+// SchedStep is one step of a failure's schedule in printable form (native replay).
+type SchedStep struct {
+	G       uint32 `json:"g"`
+	Kind    string `json:"kind"`
+	Site    string `json:"site"`
+	Case    int    `json:"case"`
+	Partner uint32 `json:"partner,omitempty"`
+	PCase   int    `json:"pcase,omitempty"`
+	PSite   string `json:"psite,omitempty"`
+	Stub    bool   `json:"stub,omitempty"`
+	Caller  string `json:"caller,omitempty"`
+}
+
+// ScheduleOf lists the scheduling decisions of a failure.
+func (e *Engine) ScheduleOf(f *Failure) []SchedStep {
+	var out []SchedStep
+	for _, d := range f.Decs {
+		if d.T == nil {
+			continue
+		}
+		t := d.T
+		st := SchedStep{G: t.G, Kind: opNamesK[t.Kind], Site: e.posStr(t.Pos), Case: t.Case, Partner: t.Partner, PCase: t.PCase, Stub: t.Stub}
+		if t.Partner != 0 {
+			st.PSite = e.posStr(t.PartnerPos)
+		}
+		if t.Stub && t.Caller.IsValid() {
+			st.Caller = e.posStr(t.Caller)
+		}
+		out = append(out, st)
+	}
+	return out
 }
 
 func (e *Engine) transDesc(t *Trans) string {
